@@ -1,6 +1,40 @@
 import Driver.C20
+import Driver.C19
+import Driver.C02
+import Driver.C06
+import Driver.C15
+import Driver.C13
+import Driver.C01
+import Driver.C16
+import Driver.C05
+import Driver.C10
+import Driver.C04
+import Driver.C18
+import Driver.C07
+import Driver.C09
+import Driver.C17
+import Driver.C11
+import Driver.C14
+import Driver.C08
 
 def main (args : List String) : IO UInt32 := do
   match args with
   | "c20" :: _ => Driver.C20.main; return 0
+  | "c19" :: _ => Driver.C19.main; return 0
+  | "c02" :: _ => Driver.C02.main; return 0
+  | "c06" :: rest => Driver.C06.main rest; return 0
+  | "c15" :: _ => Driver.C15.main; return 0
+  | "c13" :: _ => Driver.C13.main; return 0
+  | "c01" :: _ => Driver.C01.main; return 0
+  | "c16" :: _ => Driver.C16.main; return 0
+  | "c05" :: _ => Driver.C05.main; return 0
+  | "c10" :: _ => Driver.C10.main; return 0
+  | "c04" :: _ => Driver.C04.main; return 0
+  | "c18" :: _ => Driver.C18.main; return 0
+  | "c07" :: _ => Driver.C07.main; return 0
+  | "c09" :: _ => Driver.C09.main; return 0
+  | "c17" :: _ => Driver.C17.main; return 0
+  | "c11" :: _ => Driver.C11.main; return 0
+  | "c14" :: _ => Driver.C14.main; return 0
+  | "c08" :: _ => Driver.C08.main; return 0
   | _ => IO.eprintln "usage: ssdriver <model> < ops"; return 2
